@@ -9,10 +9,11 @@ invalid program per diagnostic site).
   byte level    every byte of every seed replaced by each of BYTE_ALPHABET, truncation at every byte offset
   deviation 2   (thorough) all ordered pairs of deviation-1 edits with the DEV2 alphabet for seeds <= DEV2_MAXTOK tokens
 Variants are de-duplicated by content.  Each one is run as `chibicc -cc1 -cc1-input v.c -cc1-output v.s v.c` by
-harness/c13_run.c under RLIMIT_CPU 5 s / RLIMIT_AS 2 GB / 20 s wall, observed from outside with ptrace.
+harness/c13_run.c under RLIMIT_CPU 5 s / RLIMIT_AS 2 GB / 60 s wall, observed from outside with ptrace.
 
 Verdicts (nothing is concluded from gcc accepting or rejecting an edited program):
-  (i)   no death by signal, no `internal error`, no hang (a timeout is re-run alone with 10x limits first)
+  (i)   no death by signal, no `internal error`, no hang (a timeout is re-run alone with 10x limits; only a run
+        that really burns 50 s of CPU is a hang - a wall-clock timeout on a loaded machine is never a verdict)
   (ii)  exit 0  => the output exists and `as` accepts it (assembled once per distinct output text)
   (iii) exit !=0 => stderr is non-empty and its first line is `<file>:<line>: ` naming an existing file and a line
         1..(number of lines + 1) of it (the line after the last one is where chibicc places end-of-file), or a
@@ -29,11 +30,12 @@ if __name__ == "__main__":
 from vlib import core
 
 LEVEL = "exploration"
-BUDGET = {"quick": 240, "thorough": 2400}
+BUDGET = {"quick": 900, "thorough": 3600}
 
 SEEDS = os.path.join(core.VERIF, "harness", "c13_seeds")
 RUNNER_SRC = os.path.join(core.VERIF, "harness", "c13_run.c")
-CPU_S, WALL_S, MEM_MB = 5, 20, 2048
+CPU_S, WALL_S, MEM_MB = 5, 60, 2048      # first pass; the wall limit only guards against a blocked process
+CONFIRM_CPU_S, CONFIRM_WALL_S = 50, 400   # a hang is declared only when 10x the CPU limit is really consumed
 
 # ---------------------------------------------------------------------------------------------------------
 # alphabets (explicit bounds of the enumeration)
@@ -56,10 +58,11 @@ DIRECTIVES = ["\n#define X", "\n#define F(", "\n#undef f\n", "\n#include", "\n#i
               "\n#if 0\n"]
 OTHER = ["\\\n", "/*", "//", "@", "`", "$", "\\", "(struct", "int(", "){", "[]", "()", "{}", "= {", ",)"]
 FULL_ALPHABET = PUNCT + KEYWORDS + IDENTS + LITERALS + DIRECTIVES + OTHER
-QUICK_ALPHABET = ["(", ")", "{", "}", "[", ";", ",", "*", "=", ":", ".", "/", "0", "a", "int", "struct", "#", "\""]
+QUICK_ALPHABET = ["(", ")", "{", ";", ",", "*", "=", ":", "#", "0", "a", "int"]
 DEV2_ALPHABET = ["(", "{", ";", "0", "int", "*"]
 DEV2_MAXTOK = {"quick": 0, "thorough": 12}
-BYTE_ALPHABET = [0x00, 0x80, 0xff, ord("\\"), ord('"'), ord("'"), ord("\n")]
+BYTE_ALPHABET = {"quick": [0x00, ord("\\"), ord('"')],
+                 "thorough": [0x00, 0x80, 0xff, ord("\\"), ord('"'), ord("'"), ord("\n")]}
 
 # option sets applied to every seed (deviation 0)
 OPTION_SETS = [[], ["-E"], ["-fpic"], ["-fcommon"], ["-fno-common"], ["-DX=1", "-DF(x)=x"], ["-Ua", "-I."],
@@ -162,7 +165,7 @@ def gen_variants(src, spec):
                 yield e1 + "+" + e2, join(t2, w2)
     elif kind == "byte":
         for i in range(len(src)):
-            for b in BYTE_ALPHABET:
+            for b in BYTE_ALPHABET[spec[1]]:
                 if src[i] != b:
                     yield "b%d.%02x" % (i, b), src[:i] + bytes([b]) + src[i + 1:]
         for i in range(len(src)):
@@ -240,6 +243,7 @@ def count_lines(data):
 
 
 _LOC = re.compile(rb"^([^\n:]+):(\d+): ")
+_LINEDIR = re.compile(rb"#[ \t]*(?:line\b|\d)")
 
 
 def judge_diag(err, data, wd, loose):
@@ -255,14 +259,18 @@ def judge_diag(err, data, wd, loose):
     name, line = m.group(1).decode("utf-8", "replace"), int(m.group(2))
     if name.startswith("<"):               # <built-in>, <command line>
         return None
+    if _LINEDIR.search(data):              # after #line / `# N` the reported line is the presumed one
+        return None
     if name == "v.c":
         nlines = count_lines(data)
     else:
         nlines = file_lines(name if os.path.isabs(name) else os.path.join(wd, name))
         if nlines is None:
             return ("diag-nonexistent-file", caret_msg(err))
-    if not 1 <= line <= nlines + 1:
-        return ("diag-line-out-of-range", caret_msg(err))
+    if line < 1:
+        return ("diag-line-out-of-range", "line%d%s" % (line, "-input-has-NUL" if b"\0" in data else ""))
+    if line > nlines + 1:
+        return ("diag-line-out-of-range", "beyond-eof-" + caret_msg(err))
     return None
 
 
@@ -387,9 +395,16 @@ class Symbols:
                 self.addrs.append(int(f[0], 16))
                 self.names.append(f[2])
         self.tree = tree
+        self.bias = 0
+        with open(chibicc, "rb") as f:
+            hdr = f.read(18)
+        if hdr[16:18] == b"\x02\x00":       # ET_EXEC: the runner reports offsets from the lowest mapping
+            rc, o, e = core.sh(["readelf", "-lW", chibicc])
+            m = re.search(r"^\s*LOAD\s+0x[0-9a-f]+\s+0x([0-9a-f]+)", o, re.M)
+            self.bias = int(m.group(1), 16) if m else 0
 
     def func(self, rel, is_ret):
-        a = rel - 1 if is_ret else rel
+        a = rel + self.bias - (1 if is_ret else 0)
         i = bisect.bisect_right(self.addrs, a) - 1
         return self.names[i] if i >= 0 else "?"
 
@@ -449,8 +464,10 @@ def case_signatures(chibicc, tree, runner, wd, data, opts, asmdir, sym=None, con
     sigs = []
     if outcome == "timeout" and confirm:
         cid, status, err, ah, anew, tr = run_batch(runner, chibicc, wd, [("c", data, opts)], asmdir,
-                                                   cpu=CPU_S * 10, wall=CPU_S * 12)[0]
+                                                   cpu=CONFIRM_CPU_S, wall=CONFIRM_WALL_S)[0]
         outcome, an = judge(status, err, ah, data, opts, wd)
+        if status == "T":
+            an = None                      # starved, not hung
     if outcome == "accepted" and ah != "0" * 16 and b"asm" not in data:
         p = os.path.join(asmdir, ah + ".s")
         if os.path.exists(p) and os.path.getsize(p):
@@ -549,7 +566,7 @@ def run(ctx):
         else:
             for part in core.chunks(alpha_idx, 40):
                 items.append((name, valid, src, ("tok1", tuple(part)), ntok * (3 + 2 * len(part))))
-        items.append((name, valid, src, ("byte",), len(src) * (len(BYTE_ALPHABET) + 1)))
+        items.append((name, valid, src, ("byte", tier), len(src) * (len(BYTE_ALPHABET[tier]) + 1)))
         if ntok <= DEV2_MAXTOK[tier]:
             n1 = ntok * (3 + 2 * len(DEV2_ALPHABET)) + len(DEV2_ALPHABET)
             nsl = 4
@@ -569,11 +586,20 @@ def run(ctx):
         for a in args:
             futs.append(ex.submit(_work, a))
         for i, f in enumerate(futs):
-            if ctx.out_of_time(reserve=60):
+            while not f.done() and not ctx.out_of_time(reserve=60):
+                try:
+                    f.result(timeout=2)
+                except Exception:
+                    pass
+            if not f.done():
                 for g in futs[i:]:
-                    g.cancel()
-                ctx.incomplete("deadline: %d of %d neighbourhood items finished (items are (seed, edit family))"
-                               % (done_items, len(futs)))
+                    if g.done():
+                        results.append(g.result())
+                        done_items += 1
+                    else:
+                        g.cancel()
+                ctx.incomplete("deadline: %d of %d neighbourhood items finished (an item is one seed x one edit "
+                               "family; see items_done)" % (done_items, len(futs)))
                 break
             results.append(f.result())
             done_items += 1
@@ -634,8 +660,8 @@ def run(ctx):
 
     # ---- crashes that disappear with 4x the memory are out-of-memory deaths; timeouts get 10x ----------
     crash = [a for a in anomalies if a["cls"] == "signal" and "overflow=1" not in a["trace"]]
-    conf = core.pmap(_confirm, [(ctx.chibicc, runner, os.path.join(ctx.work, "c%d" % i), a, CPU_S * 10, WALL_S * 10,
-                                 MEM_MB * 4) for i, a in enumerate(crash)], nproc=4, chunksize=8)
+    conf = core.pmap(_confirm, [(ctx.chibicc, runner, os.path.join(ctx.work, "c%d" % i), a, CONFIRM_CPU_S,
+                                 CONFIRM_WALL_S, MEM_MB * 4) for i, a in enumerate(crash)], nproc=4, chunksize=8)
     oom = 0
     for a, (st, tr) in zip(crash, conf):
         if st != a["status"]:
@@ -644,15 +670,18 @@ def run(ctx):
     touts = sorted((a for a in anomalies if a["cls"] == "timeout"), key=lambda a: (len(a["data"]), a["data"]))
     unconfirmed = 0
     keep = []
-    budget_cases = 16 if ctx.time_left() > CPU_S * 10 + 40 else 0
-    conf = core.pmap(_confirm, [(ctx.chibicc, runner, os.path.join(ctx.work, "t%d" % i), a, CPU_S * 10, CPU_S * 12,
-                                 MEM_MB) for i, a in enumerate(touts[:budget_cases])], nproc=16)
+    budget_cases = 16 if ctx.time_left() > CONFIRM_CPU_S + 40 else 0
+    conf = core.pmap(_confirm, [(ctx.chibicc, runner, os.path.join(ctx.work, "t%d" % i), a, CONFIRM_CPU_S,
+                                 max(CONFIRM_CPU_S + 10, min(CONFIRM_WALL_S, int(ctx.time_left()) - 30)), MEM_MB)
+                                for i, a in enumerate(touts[:budget_cases])], nproc=16)
     confirmed_hang = {}
     for a, (st, tr) in zip(touts[:budget_cases], conf):
-        if st == "T" or st in ("S24", "S9"):
+        if st in ("S24", "S9"):            # consumed 10x the CPU limit: a hang, not a slow machine
             a["trace"] = tr or a["trace"]
             confirmed_hang[signature(sym, a)] = True
             keep.append(a)
+        else:
+            unconfirmed += 1
     for a in touts[budget_cases:]:
         if signature(sym, a) in confirmed_hang:
             keep.append(a)
@@ -687,7 +716,7 @@ def run(ctx):
                     "edit that changes the seed; each case is one real `chibicc -cc1` process judged by wait status, "
                     "stderr location and `as`"),
               seeds_valid=nvalid, seeds_invalid=len(seeds) - nvalid, token_alphabet=len(alpha_idx),
-              byte_alphabet=len(BYTE_ALPHABET), option_sets=len(OPTION_SETS), option_probes=len(OPTION_PROBES), driver_probes=driver_runs,
+              byte_alphabet=len(BYTE_ALPHABET[tier]), option_sets=len(OPTION_SETS), option_probes=len(OPTION_PROBES), driver_probes=driver_runs,
               runs_by_family=by_family, accepted=tot["accepted"], rejected_with_diagnostic=tot["rejected"],
               died_by_signal=tot["crash"], timeouts_first_pass=tot["timeout"], timeouts_unconfirmed=unconfirmed,
               out_of_memory_deaths=oom, distinct_asm_outputs_assembled=asm_checked, asm_skipped_inline_asm=asm_skipped,
